@@ -53,6 +53,7 @@ type cfNode struct {
 type cfQuery struct {
 	Q     []int `json:"q"`
 	Risky bool  `json:"risky"`
+	Skip  bool  `json:"skip"` // risky and not run in this tier (sampled out): no Open at all
 }
 
 type cfCase struct {
@@ -573,7 +574,7 @@ func casfsParent(args []string) error {
 	jobs := []job{}
 	for _, c := range cases {
 		for qi, q := range c.Qs {
-			if q.Risky {
+			if q.Risky && !q.Skip {
 				jobs = append(jobs, job{c, qi})
 			}
 		}
